@@ -3,7 +3,8 @@
 usage: seedconfirm.py <srcdir> <prop> <letter>"""
 import json, os, re, shutil, subprocess, sys
 src, prop, x = sys.argv[1:4]
-sid = "%s-%s" % (prop, x)
+new = sys.argv[4] if len(sys.argv) > 4 else x
+sid = "%s-%s" % (prop, new)
 env = dict(os.environ, GOFLAGS="-mod=mod", GOPROXY="off", GOSUMDB="off", GOTOOLCHAIN="local")
 wt = "/tmp/seedconfirm_" + sid
 def sh(cmd, cwd=None):
